@@ -819,5 +819,36 @@ def exhaustive_tracers():
                 segs.append(('xtr-%s-%s' % (''.join(map(str, kinds)), ''.join(map(str, perm))), ops))
     return segs
 
-EXHAUSTIVE.update({'C07': [exhaustive_forbid], 'C08': [exhaustive_clauses], 'C13': [exhaustive_monitors, exhaustive_seqmonitors], 'C14': [exhaustive_monitors, exhaustive_seqdeath],
+def exhaustive_forbid_seq():
+    """C07/C02: an older unsequenced forbidding expectation on f(1) (FORBID_CALL / TIMES(0) / RT_TIMES(0,0)) under a newer sequenced
+    REQUIRE_CALL f(1) that stands behind k = 0..2 optional or already satisfied steps of its sequence (steps on f(0): ALLOW_CALL,
+    AT_MOST(2), or AT_LEAST(1) already called): with k = 0 the sequenced expectation takes the call, otherwise the forbidding one
+    (cost 0) is designated and the call is one fatal report; every call string over {f(0), f(1)} up to length 3"""
+    segs = []
+    strings = [''.join(x) for n in range(1, 4) for x in itertools.product('01', repeat=n)]
+    for fsh in (12, 14, 2):
+        for k in (0, 1, 2):
+            for pk in (('allow',), ('atmost',), ('atleast',)) if k else ((),):
+                for cs in strings:
+                    ops = ['mock 0', 'seq 1']
+                    ops.append(expect_line(6, fsh, 0, p=((1, 1), (0, 0)), retv=600, lo=0, hi=0))            # the forbidding one, oldest
+                    pre_calls = []
+                    for j in range(k):
+                        kind = pk[0]
+                        if kind == 'allow':
+                            ops.append(expect_line(1 + j, 11, 0, p=((1, 0), (0, 0)), retv=100 + j, q=(1, 0)))   # ALLOW_CALL in sequence
+                        elif kind == 'atmost':
+                            ops.append(expect_line(1 + j, 5, 0, p=((1, 0), (0, 0)), retv=100 + j, lo=0, hi=2, q=(1, 0)))
+                        else:
+                            ops.append(expect_line(1 + j, 5, 0, p=((1, 0), (0, 0)), retv=100 + j, lo=1, hi=INF, q=(1, 0)))
+                            pre_calls.append('call 0 1 0 0')
+                    ops.append(expect_line(4, 5, 0, p=((1, 1), (0, 0)), retv=400, lo=1, hi=2, q=(1, 0)))           # newest, sequenced
+                    # an AT_LEAST(1) step must be satisfied by its own call; with two of them the first is passed over by the second's call
+                    ops += pre_calls[:1] if k == 1 else (['call 0 1 0 0'] if pre_calls else [])
+                    ops += ['call 0 1 %s 0' % c for c in cs]
+                    ops += ['release 4', 'release 1', 'release 2', 'release 6', 'dseq 1']
+                    segs.append(('xfs-%d-%d-%s-%s' % (fsh, k, pk[0] if pk else 'none', cs), ops))
+    return segs
+
+EXHAUSTIVE.update({'C07': [exhaustive_forbid, exhaustive_forbid_seq], 'C08': [exhaustive_clauses], 'C13': [exhaustive_monitors, exhaustive_seqmonitors], 'C14': [exhaustive_monitors, exhaustive_seqdeath],
                    'C15': [exhaustive_reports, exhaustive_forbid, exhaustive_seqmonitors], 'C16': [exhaustive_reports], 'C17': [exhaustive_tracers]})
